@@ -73,12 +73,24 @@ class G:
         if r < 0.82 and d > 0:
             return ('if', self.cond(1, vars_ + ['x']), [self.stmt(d - 1, vars_)], [self.stmt(d - 1, vars_)] if self.r.random() < 0.5 else None)
         if r < 0.9:
-            return ('aset', 'arr', self.r.choice([('s', 'k1'), ('s', 'k2'), ('v', 'x')]), self.arith(1, vars_ + ['x']))
+            return ('aset', 'arr', self.key(), self.arith(1, vars_ + ['x']))
         if r < 0.95 and d > 0:
             items = self.r.choice([[('n', 1), ('n', 2), ('v', 'x')], [('n', 0), ('n', 1), ('n', 2)], [('n', 0)], [('s', ''), ('s', 'q')],
                                    [('v', 'x'), ('n', 0)], [('n', 0), ('v', 'y')]])
             return ('forin', 'e', items, [('print', 'e ', ('v', 'e'))])
-        return ('print', 'a ', ('arr', 'arr', self.r.choice([('s', 'k1'), ('s', 'k2'), ('v', 'x')])))
+        return ('print', 'a ', ('arr', 'arr', self.key(read=True)))
+
+    def key(self, read=False):
+        """an array subscript: a string, a variable, an integer literal, or several literal subscripts (a[1, 2] and a[2, 1] and a[3]
+        are three different elements)"""
+        r = self.r.random()
+        if r < 0.6:
+            return self.r.choice([('s', 'k1'), ('s', 'k2'), ('v', 'x')])
+        if r < 0.75:
+            # name[3] in an expression is a bit slice, not an element: the element set by a[3] = v is read as a["3"]
+            return ('s', str(self.r.randint(1, 4))) if read else ('n', self.r.randint(1, 4))
+        return ('multi', self.r.choice([[('n', 1), ('n', 2)], [('n', 2), ('n', 1)], [('n', 1), ('n', 1), ('n', 1)], [('n', 3), ('n', 0)],
+                                        [('n', 1), ('s', 'k')], [('s', 'k'), ('n', 1)], [('n', 0), ('n', 3)]]))
 
 
 PREC = {'||': 1, '&&': 2, '==': 3, '!=': 3, '>': 3, '<': 3, '>=': 3, '<=': 3, '+': 4, '-': 4, '*': 5, '/': 5}
@@ -98,6 +110,8 @@ def src_expr(e):
         return '(' + src_expr(e[1]) + ')'
     if k == 'not':
         return '!' + src_expr(e[1])
+    if k == 'multi':
+        return ', '.join(src_expr(x) for x in e[1])
     if k == 'arr':
         return f'{e[1]}[{src_expr(e[2])}]'
     # the tree is the reference reading: parentheses are written exactly where the stated grouping
@@ -157,6 +171,9 @@ class Ref:
             return self.ev(e[1])
         if k == 'not':
             return not self.ev(e[1])
+        if k == 'multi':
+            # literal subscripts: the element is named by their texts, one after the other
+            return ''.join(str(self.ev(x)) for x in e[1])
         if k == 'arr':
             return self.arr.get(str(self.ev(e[2])), 0)
         op, a, b = e[1], e[2], e[3]
@@ -342,15 +359,22 @@ class C20(framework.PropertyCheck):
                 prog['begin'].append(('assign', h, ('n', g.r.randint(1, 3))))
                 prog['end'].insert(0, ('aset', 'arr', ('v', h), ('bin', '+', ('arr', 'arr', ('v', h)), ('n', 1))))
                 prog['end'].insert(1, ('print', 'h ', ('arr', 'arr', ('v', h))))
-            if len(prog['stmts']) >= 2 and g.r.random() < 0.3:
+            if len(prog['stmts']) >= 2 and g.r.random() < 0.4:
                 # statements guarded by the same conditions still run in source order, each in its own turn
                 prog['stmts'][-1]['conds'] = list(prog['stmts'][0]['conds'])
                 r5 = g.r.random()
-                if r5 < 0.3:
+                if r5 < 0.4:
                     # the shared condition reads a variable that the first action changes: the second statement tests it afresh
                     c = ('par', ('bin', '<', ('v', 'x'), ('n', g.r.randint(3, 6))))
-                    prog['stmts'][0]['conds'] = [('sig', 'top.clk'), c] if g.r.random() < 0.5 else [c]
-                    prog['stmts'][-1]['conds'] = list(prog['stmts'][0]['conds'])
+                    lay = g.r.randrange(4)
+                    if lay < 2:
+                        prog['stmts'][0]['conds'] = [('sig', 'top.clk'), c] if lay == 0 else [c]
+                        prog['stmts'][-1]['conds'] = list(prog['stmts'][0]['conds'])
+                    else:
+                        # the changing condition comes first in every statement, each with further conditions of its own
+                        for st in prog['stmts']:
+                            st['conds'] = [c] + [g.cond(0, vars_) if lay == 3 else ('sig', g.r.choice(['top.clk', 'top.d_valid']))
+                                                 for _ in range(g.r.randint(1, 2))]
                     prog['stmts'][0]['action'].insert(0, ('opassign', 'x', '+', ('n', 2)))
                     prog['stmts'][-1]['action'].insert(0, ('print', 'second ', ('v', 'x')))
                 elif r5 < 0.7:
@@ -361,6 +385,13 @@ class C20(framework.PropertyCheck):
                         st['action'].insert(0, ('print', f's{k} ', ('idx',)))
                     if len(prog['stmts']) == 3:
                         prog['stmts'][1]['conds'] = [('par', ('bin', '>=', ('idx',), ('n', g.r.randint(0, 2))))]
+            if g.r.random() < 0.2:
+                # elements named by several literal subscripts are kept apart from their permutations and from the sum
+                ks = g.r.sample([[('n', 1), ('n', 2)], [('n', 2), ('n', 1)], [('n', 3)], [('n', 0), ('n', 3)], [('n', 1), ('n', 1), ('n', 1)]], 3)
+                for j, kk in enumerate(ks[:2]):
+                    prog['begin'].append(('aset', 'arr', ('multi', kk) if len(kk) > 1 else kk[0], ('n', 5 + j)))
+                for kk in ks:
+                    prog['end'].append(('print', 'm ', ('arr', 'arr', ('multi', kk) if len(kk) > 1 else ('s', str(kk[0][1])))))
             if g.r.random() < 0.05:
                 prog['stmts'] = []
             case = {'prog': _tolist(prog), 'seed': rng.randrange(1 << 30)}
@@ -545,7 +576,7 @@ def _tolist(x):
 
 def _totuple(x):
     if isinstance(x, list):
-        if x and isinstance(x[0], str) and x[0] in ('n', 'v', 's', 'sig', 'idx', 'bin', 'not', 'par', 'arr', 'assign', 'opassign', 'print', 'if', 'aset', 'forin'):
+        if x and isinstance(x[0], str) and x[0] in ('n', 'v', 's', 'sig', 'idx', 'bin', 'not', 'par', 'arr', 'assign', 'opassign', 'print', 'if', 'aset', 'forin', 'multi'):
             return tuple(_totuple(y) if not (isinstance(y, list) and x[0] in ('if', 'forin') and y and isinstance(y[0], list)) else [_totuple(z) for z in y] for y in x)
         return [_totuple(y) for y in x]
     if isinstance(x, dict):
